@@ -163,7 +163,7 @@ def scale_errs(errs, f):
 
 
 def gen_rmv(rng, pow2=False):
-    """pow2: only powers of two as scale factors (the readings stay short dyadic numbers)"""
+    """pow2: the uncertainties are scaled by powers of two only (the readings by any factor)"""
     u = rng.random()
     scale = 1.0
     if u < 0.3:                                     # numpy arrays of a narrow dtype, values at its precision limit
@@ -172,12 +172,14 @@ def gen_rmv(rng, pow2=False):
     else:
         xs = sl.gen_readings(rng)
         if rng.random() < 0.4:
-            scale = rng.choice(POW2_SCALES if pow2 else SCALES)
+            scale = rng.choice(SCALES)
             xs = [x * scale for x in xs]
             if len(set(xs)) < 2:
                 xs, scale = sl.gen_readings(rng), 1.0
         container = sl.pick_container(rng, xs, 0.35)
-    errs = scale_errs(gen_errs(rng, len(xs)), scale)
+    # pow2 (correspondence): uncertainties keep short mantissas -- the weights 1/s^2 are then short rationals and the
+    # exact evaluation inside Coq stays fast; the oracle (Fractions) takes every scale
+    errs = scale_errs(gen_errs(rng, len(xs)), 2.0 ** round(math.log2(scale)) if pow2 else scale)
     v = rng.random()
     if errs is not None and v < 0.22:               # uncertainties much smaller than the readings ...
         tiny = rng.choice([2.0 ** -30, 2.0 ** -40] if pow2 else [2.0 ** -30, 1e-9, 2.0 ** -40, 1e-12])
@@ -316,7 +318,7 @@ def correspondence(ctx):
     res = CorrResult()
     rng = ctx.rng
     corpus = load_corpus()
-    rmvs = [c["case"] for c in corpus if c.get("kind") == "rmv"] + [gen_rmv(rng) for _ in range(ctx.n(500, 8000))]
+    rmvs = [c["case"] for c in corpus if c.get("kind") == "rmv"] + [gen_rmv(rng, pow2=True) for _ in range(ctx.n(500, 8000))]
     pairs = [c["case"] for c in corpus if c.get("kind") == "pair"] + [gen_pair(rng) for _ in range(ctx.n(300, 4000))]
     res.extra["corpus_cases"] = len(corpus)
     shards, index = [], []
